@@ -89,6 +89,7 @@ Definition request_sys_shape (b : binput) : bool :=
   (eff_policy_mem (s_mem_policy (b_s b)) =? 2) && (reserved_mem b <? sys_mem b).
 Definition finding_sig (inp obs : list Z) : Z :=
   let '(a, b) := decode2 inp in
+  if negb (request_sys_shape a || request_sys_shape b) then 0 else
   let oa := firstn (obs_len obs) obs in
   let c := prop_case inp obs in
   let failing := if negb (batch_code true a oa =? 0) then a else b in
